@@ -586,6 +586,9 @@ func c13Dump(c *core.Ctx, dump []byte, src string, allCuts bool, r *rand.Rand) {
 		}
 		c.Nontrivial(core.Hash(dump, cut))
 	}
+	if c.WantSample() && len(dump) < 200 {
+		c.Sample(map[string]any{"source": core.Trunc(src, 200), "dump_hex": fmt.Sprintf("% x", dump), "cut_points": len(cuts), "readers": "whole slice, one byte per read"})
+	}
 	c.Count("cut_points_tried", int64(len(cuts)))
 	c.Count("dumps_cut", 1)
 	if allCuts || len(dump) <= 4000 {
